@@ -19,7 +19,7 @@ def judge(req, impl, f, prev):
     sp = f[1] if len(f) > 1 else '-'
     if sp != '-':
         so, sd = sp.split(' ## ')
-        if not vlib.res_equal(io, so, req):
+        if not vlib.res_equal(io, so, req, f[2] if len(f) > 2 else None):
             return (so, 'result differs from the reference tree filesystem')
         if vlib.abs_of_dump(impl) != sd:
             return (sd, 'resulting tree differs from the reference tree filesystem')
@@ -38,7 +38,7 @@ def nontrivial(req, impl):
 
 
 SPEC = dict(
-    prop='C01', lean_mod='Rivia.Props.C01A,Rivia.Props.C01B,Rivia.Props.C01noop', gen=gen, judge=judge, nontrivial=nontrivial,
+    prop='C01', lean_mod='Rivia.Props.C01A,Rivia.Props.C01B,Rivia.Props.C01noop,Rivia.Props.C01R', gen=gen, judge=judge, nontrivial=nontrivial,
     foreign_classes=('empty_lines_noop', 'sym_kind_specific_clauses', 'sym_malformed', 'moved_link_rel_stale'),
     rule='seeded random histories (length up to the tier bound) over the namespace {a,b,c,é} x depth 3 and over {a,b} x depth 2, arguments absolute / cwd-relative / unclean / garbage, '
          'data incl. empty, multi-byte, invalid UTF-8; after EVERY call the result and the full internal state dump are compared with the Lean model, and the result + abstract tree with the reference '
